@@ -211,6 +211,36 @@ impl MemSrv {
     }
 }
 
+impl MemSrv {
+    /// A client that runs ahead: all messages are sent before anything is read, then the barrier.
+    pub fn burst(&mut self, msgs: &[Value]) -> StepObs {
+        for m in msgs {
+            if self.c.sender.send(to_message(m)).is_err() {
+                return StepObs { status: Status::Dead, msgs: vec![] };
+            }
+        }
+        self.next += 1;
+        let pid = self.next;
+        if self.c.sender.send(to_message(&tokens_req(pid, PROBE_URI))).is_err() {
+            return StepObs { status: Status::Dead, msgs: vec![] };
+        }
+        let mut out = vec![];
+        loop {
+            match self.c.receiver.recv_timeout(WATCHDOG) {
+                Ok(m) => {
+                    let v = serde_json::to_value(&m).unwrap();
+                    if v.get("method").is_none() && v["id"] == json!(pid) {
+                        return StepObs { status: Status::Alive, msgs: out };
+                    }
+                    out.push(v);
+                }
+                Err(RecvTimeoutError::Disconnected) => return StepObs { status: Status::Dead, msgs: out },
+                Err(RecvTimeoutError::Timeout) => return StepObs { status: Status::Hung, msgs: out },
+            }
+        }
+    }
+}
+
 impl Server for MemSrv {
     fn step(&mut self, msg: &Value) -> StepObs {
         if self.c.sender.send(to_message(msg)).is_err() {
